@@ -1067,9 +1067,22 @@ def get_block_loc_keys(block):
     return symbols
 
 
-def assemble_block(mnemo, block, conservative=False):
+def _keep_length(candidates, candidate, min_length):
+    """Return the shortest of @candidates which is at least @min_length bytes
+    long; @candidate if there is none, or if @min_length is None"""
+    if min_length is None or len(candidate) >= min_length:
+        return candidate
+    for other in candidates:
+        if len(other) >= min_length:
+            return other
+    return candidate
+
+
+def assemble_block(mnemo, block, conservative=False, allow_shrink=True):
     """Assemble a @block
     @conservative: (optional) use original bytes when possible
+    @allow_shrink: (optional) if not set, an instruction keeps at least its
+    current length
     """
     offset_i = 0
 
@@ -1098,9 +1111,13 @@ def assemble_block(mnemo, block, conservative=False):
             instr.fixDstOffset()
 
         old_l = instr.l
-        cached_candidate, _ = conservative_asm(
+        min_length = None if allow_shrink else old_l
+        cached_candidate, candidates = conservative_asm(
             mnemo, instr, block.loc_db,
             conservative
+        )
+        cached_candidate = _keep_length(
+            candidates, cached_candidate, min_length
         )
         if len(cached_candidate) != instr.l:
             # The output instruction length is different from the one we guessed
@@ -1110,9 +1127,12 @@ def assemble_block(mnemo, block, conservative=False):
             instr.args = instr.resolve_args_with_symbols(block.loc_db)
             if instr.dstflow():
                 instr.fixDstOffset()
-            cached_candidate, _ = conservative_asm(
+            cached_candidate, candidates = conservative_asm(
                 mnemo, instr, block.loc_db,
                 conservative
+            )
+            cached_candidate = _keep_length(
+                candidates, cached_candidate, min_length
             )
             assert len(cached_candidate) == instr.l
 
@@ -1125,6 +1145,11 @@ def assemble_block(mnemo, block, conservative=False):
         instr.l = len(cached_candidate)
 
         offset_i += instr.l
+
+
+# asmblock_final: rounds during which instructions may shrink / maximum rounds
+MAX_SHRINK_ROUNDS = 32
+MAX_ROUNDS = 1024
 
 
 def asmblock_final(mnemo, asmcfg, blockChains, conservative=False):
@@ -1150,7 +1175,16 @@ def asmblock_final(mnemo, asmcfg, blockChains, conservative=False):
     blocks_to_rework = set(asmcfg.blocks)
 
     # Fix and re-assemble blocks until fixed point is reached
+    rounds = 0
     while True:
+        # The length of an instruction may depend on offsets which depend on
+        # this length (backward short/near jump in a block placed before a
+        # pinned one): after a few rounds lengths may only grow, so that a
+        # fixed point is reached
+        rounds += 1
+        if rounds > MAX_ROUNDS:
+            raise RuntimeError("Cannot reach a fixed point while placing blocks")
+        allow_shrink = rounds <= MAX_SHRINK_ROUNDS
 
         # Propagate pinned blocks into chains
         modified_loc_keys = set()
@@ -1175,7 +1209,7 @@ def asmblock_final(mnemo, asmcfg, blockChains, conservative=False):
 
         while blocks_to_rework:
             block = blocks_to_rework.pop()
-            assemble_block(mnemo, block, conservative)
+            assemble_block(mnemo, block, conservative, allow_shrink)
 
 
 def asm_resolve_final(mnemo, asmcfg, dst_interval=None):
